@@ -413,7 +413,7 @@ func judgeTwin(rep *Report, pr *ProgResult, keys []string, pairs [][2]string) {
 		if pr.GenFile != "" {
 			files[pr.P.ID+"/app/wire_gen.go"] = pr.GenFile
 		}
-		rep.Violate(pr.P.ID+"_"+strings.ReplaceAll(strings.Split(clause, ":")[0], " ", "_"), Issue{Prop: "C13", Clause: clause, Witness: witness, Sig: "C13:twin:" + strings.Split(clause, ":")[0]}, files, map[string]string{"wire_stderr.txt": pr.GenStderr})
+		rep.Violate(pr.P.ID+"_"+strings.ReplaceAll(strings.Split(clause, ":")[0], " ", "_"), Issue{Prop: rep.Prop, Clause: clause, Witness: witness, Sig: rep.Prop + ":twin:" + strings.Split(clause, ":")[0]}, files, map[string]string{"wire_stderr.txt": pr.GenStderr})
 	}
 	if pr.Crash != "" {
 		violate("crash", pr.Crash)
